@@ -193,6 +193,44 @@ Fixpoint final_ok (prev : list (option (op * N) * option bytes)) (sts : list fst
       final_ok (fs_status st) sts'
   end.
 
+(** history-only oracle, part 2 (C19 / C18 after an interrupted commit): for the transaction under
+    test, whenever a key shows its commit record (non-rollback) after a step,
+    - if that step was an acknowledged Commit / Resolve-commit naming the key, or a CheckTxnStatus on
+      that key answered without error, the key must not report the transaction's lock any more;
+    - a CheckTxnStatus on that key never answers with a rollback action. *)
+Definition names_key (r : request) (k : bytes) (s : N) : bool :=
+  match r with
+  | RCommit ks s' _ => (s' =? s) && existsb (bytes_eqb k) ks
+  | RResolve ks s' cv => (s' =? s) && negb (cv =? 0) && existsb (bytes_eqb k) ks
+  | RCheck p s' _ _ _ => (s' =? s) && bytes_eqb k p
+  | _ => false
+  end.
+Definition acked (o : obs) : bool :=
+  match o with
+  | Obs (PCommit None) | Obs (PResolve _ None) => true
+  | Obs (PCheck cr) => match cr_error cr with None => true | Some _ => false end
+  | _ => false
+  end.
+Definition reports_rollback (o : obs) : bool :=
+  match o with
+  | Obs (PCheck cr) =>
+      match cr_action cr with ActTTLExpireRollback | ActLockNotExistRollback => true | _ => false end
+  | _ => false
+  end.
+Definition stale_ok (keys : list bytes) (s : N) (st : fstep) : bool :=
+  forallb (fun '(k, (l, stt)) =>
+             match fst stt with
+             | Some (kind, _) =>
+                 if op_eqb kind OpRollback then true
+                 else if names_key (fs_req st) k s then
+                   negb (match fs_req st with RCheck _ _ _ _ _ => reports_rollback (fs_obs st) | _ => false end) &&
+                   (negb (acked (fs_obs st)) ||
+                    match l with Some l0 => negb (l_ts l0 =? s) | None => true end)
+                 else true
+             | None => true
+             end)
+          (combine keys (combine (fs_locks st) (fs_status st))).
+
 Definition check_gen (strict : bool) (c : case) : verdict :=
   match c with
   | CSeq c =>
@@ -206,7 +244,8 @@ Definition check_gen (strict : bool) (c : case) : verdict :=
       mk_verdict m v 0
   | CFault c =>
       let m := negb (fault_model_ok (f_keys c) (f_start c) (f_commit c) fempty (f_steps c)) in
-      let v := negb (final_ok (map (fun _ => (None, None)) (f_keys c)) (f_steps c)) in
+      let v := negb (final_ok (map (fun _ => (None, None)) (f_keys c)) (f_steps c) &&
+                     forallb (stale_ok (f_keys c) (f_start c)) (f_steps c)) in
       mk_verdict m v 0
   end.
 
